@@ -470,11 +470,12 @@ def check_integrate_subset(ctx):
     I = Interp(repo, h)
     I.call(fi, [symarr('x', (N,), unit=num(1)), symarr('y', (N,), unit=num(1)), scalar(xmin, num(1)), scalar(xmax, num(1))])
     okk = False
+    sx = sy = None
     if len(h.hstack) == 2:
         sx, sy = slice_bounds(h.hstack[0][1]) if isinstance(h.hstack[0], list) else None, slice_bounds(h.hstack[1][1]) if isinstance(h.hstack[1], list) else None
         rx, ry = alg.array_fn('rev', N, x), alg.array_fn('rev', N, y)
         okk = bool(sx and sy and sx[0] == rx and sy[0] == ry)
-    if len(h.hstack) != 2 or not all(isinstance(s_, list) and len(s_) == 3 for s_ in h.hstack):
+    if len(h.hstack) != 2 or not all(isinstance(s_, list) and len(s_) == 3 for s_ in h.hstack) or not (sx and sy):
         ctx.undecided('CFG-11b', 'decreasing grid reversed together with its values', loc(fi), 'the rule reads hstack([lower, interior, upper]); the function is written another way')
     else:
         ctx.expect(okk, 'CFG-11b', 'decreasing grid reversed together with its values', loc(fi), 'x and y are both reversed before integrating', 'a decreasing grid is not order-normalised consistently', 'grid-reversal')
